@@ -205,6 +205,8 @@ def use(rnd, visible):
 def macro_cases(acc, ctx, n):
     rnd = ctx.rnd
     for j in range(n):
+        if ctx.expired():
+            break
         names = rnd.choice([["x"], ["x", "y"], ["x", "y", "i"], ["x", "x", "y"]])
         outer = {}
         for nm in set(names):
@@ -256,7 +258,7 @@ def run(ctx):
     rnd = ctx.rnd
     core.celpy()
     declaration_cases(acc, ctx)
-    macro_cases(acc, ctx, ctx.scale(2500, 100000))
+    macro_cases(acc, ctx, ctx.scale(2500, 16000))
     refs = [("a",), ("a", "b"), ("a", "b", "c")]
     packages = ["", "p", "p.q"]
     if ctx.thorough:
@@ -266,7 +268,7 @@ def run(ctx):
             i += 1
             if not ctx.mine(i):
                 continue
-            if ctx.expired():
+            if ctx.time_left() < 0.1 * ctx.budget_s:
                 done = False
                 break
             for package in packages:
@@ -297,6 +299,8 @@ def run(ctx):
                             for ref in refs:
                                 check_config(acc, tuple(assign), package, ref)
         acc.exhaustive.append("all configurations with at most two bound names x 3 packages x 3 references")
+    if ctx.thorough:
+        macro_cases(acc, ctx, ctx.scale(0, 48000))
     acc.sample({"bindings": {"a": "scalar#1000", "a.b": "map#2000"}, "package": "p", "reference": "a.b.c"})
 
 
